@@ -314,6 +314,18 @@ pub fn run(ctx: &RunCtx) -> i32 {
             json!({"config": cfg.show(), "depth": st.depth_completed, "states": st.states, "transitions": st.transitions})
         })
         .collect();
+    // three requests in flight (replies for different requests interleave), shallower
+    {
+        let mut r = Report::new();
+        for (t, m) in [(Transport::Unreliable { rto_ms: 100, gran_ms: 1, rm: 2, rc: 2 }, Mech::ShortTerm(None)), (Transport::Unreliable { rto_ms: 100, gran_ms: 1, rm: 2, rc: 2 }, Mech::ShortTerm(Some(true)))] {
+            let cfg = Cfg { transport: t, mech: m, fingerprint: false, max_tx: 10 };
+            let st = bfs(&cfg, &apps, &Mon::new(3, &cfg), if thorough { 8 } else { 6 }, if thorough { 6_000_000 } else { 1_200_000 }, &mut r);
+            r.states += st.states;
+            r.transitions += st.transitions;
+        }
+        r.sym("three-requests");
+        shared.merge(r);
+    }
     // run-to-completion with deviations on the default timing
     {
         let mut r = Report::new();
@@ -332,9 +344,9 @@ pub fn run(ctx: &RunCtx) -> i32 {
         rep,
         Finish {
             level: "model_checking",
-            rule: format!("breadth-first exploration of the real client to depth {} for 2 transports x algorithm {{to be learned, MI, SHA256}} over {{Send (<=2), Indicate, Timer, AdvanceTo(next point, +1 ms, beyond), Deliver(each awaiting request x {{valid MI, valid SHA256, both, none, corrupted MI, corrupted SHA256, MI / SHA256 under another password}} as success (and 4 of them as error response), Deliver(indication x the 8 kinds), exact duplicate of the last buffer}}; replies are built by the reference codec with independent HMACs; plus deviation-bounded runs on the default timing. Monitor: agreed := configured, else learned at the first delivered response; acceptable responses are delivered, everything else is not; wrong / absent integrity => ProtectionViolated at once on reliable transport, ignored (Err, no events) on unreliable transport and ProtectionViolated instead of TimedOut at the end unless an acceptable response arrived; both-MACs and other-algorithm replies only need to be rejected; every request and indication sent carries USERNAME and integrity attributes that verify under the password (the agreed kind once agreed)", depth),
+            rule: format!("breadth-first exploration of the real client to depth {} for 2 transports x algorithm {{to be learned, MI, SHA256}} over {{Send (<=2), Indicate, Timer, AdvanceTo(next point, +1 ms, beyond), Deliver(each awaiting request x {{valid MI, valid SHA256, both, none, corrupted MI, corrupted SHA256, MI / SHA256 under another password}} as success (and 4 of them as error response), Deliver(indication x the 8 kinds), exact duplicate of the last buffer}}; replies are built by the reference codec with independent HMACs; plus the same alphabet with three requests in flight (one level shallower) and deviation-bounded runs on the default timing. Monitor: agreed := configured, else learned at the first delivered response; acceptable responses are delivered, everything else is not; wrong / absent integrity => ProtectionViolated at once on reliable transport, ignored (Err, no events) on unreliable transport and ProtectionViolated instead of TimedOut at the end unless an acceptable response arrived; both-MACs and other-algorithm replies only need to be rejected; every request and indication sent carries USERNAME and integrity attributes that verify under the password (the agreed kind once agreed)", depth),
             assumptions: vec!["single user / password pair".into(), "indications carrying both MACs are not judged (the statement speaks of responses)".into()],
-            required_symbols: vec!["bfs-configs", "delivered-authenticated", "ignored-unauthenticated", "protection-violated-on-reliable", "rejected-both-or-other-algorithm", "protection-violated-at-timeout", "plain-timeout", "outgoing-packet-authenticated", "deviation-runs", "Redeliver"],
+            required_symbols: vec!["bfs-configs", "delivered-authenticated", "ignored-unauthenticated", "protection-violated-on-reliable", "rejected-both-or-other-algorithm", "protection-violated-at-timeout", "plain-timeout", "outgoing-packet-authenticated", "deviation-runs", "Redeliver", "three-requests"],
             min_outcomes: 8,
             exhaustive: true,
             bounds: json!({"depth": depth}),
